@@ -71,6 +71,13 @@ def fam_wiring(seed, big):
             out.append({"id": "w-closed%d" % j, "class": "wiring-closed-std", "argv": vargv(), "stdin": a, "stdout": b,
                         "stderr": c, "closed_std": closed, "repeat": 1})
             j += 1
+    # the parent's own stdout / stderr carries the close-on-exec flag, and a stream is merged onto it: the child gets both
+    # streams, on that one open file
+    for cx, (b, c) in (([1], ("none", "merge")), ([2], ("merge", "none")), ([1, 2], ("none", "merge")), ([1, 2], ("merge", "none"))):
+        for a in ("none", "pipe"):
+            out.append({"id": "w-stdcx%d" % j, "class": "wiring-std-cloexec", "argv": vargv(), "stdin": a, "stdout": b,
+                        "stderr": c, "std_cloexec": cx, "repeat": 2})
+            j += 1
     # one file shared by several streams
     shared = [("none", "rc:S", "rc:S"), ("rc:S", "rc:S", "rc:S"), ("none", "dup:S", "dup:S"), ("dup:S", "pipe", "dup:S"),
               ("rc:S", "merge", "rc:S"), ("none", "rc:S", "merge"), ("none", "merge", "dup:S"), ("file:a", "file:a", "merge"),
